@@ -80,6 +80,35 @@ def drive(ctx):
         y = mk_dt(UTCZ, i3_to_wall(sec_to_i3(s2, 0)), 0)
         ctx.emit("humanize", {"entry": ("format_diff", "diff_for_humans")[k % 2], "is_now": bool(k % 3 == 0) and k % 2 == 0, "absolute": bool(k % 5 == 0),
                               "locale": rnd.choice(locs)}, [x, y])
+    # an end-point in the second pass of a repeated hour against a reference in another zone, minutes apart
+    from .common import real_zone_names, zone_transitions
+
+    znames = real_zone_names(ctx)
+    for zn in ctx.mine(["Europe/Paris", "America/New_York", "Australia/Lord_Howe", "America/Sao_Paulo", "Asia/Tehran", "Europe/London",
+                        "America/Havana", "Pacific/Auckland"]):
+        ovs = [t for t in zone_transitions(ctx, zn) if t[2] < t[1] and 0 < t[0] < 2 * 10 ** 9]
+        for (sec, b_, a_) in pick(rnd, ovs, 2 if q else 10):
+            for (d1, d2) in ((5, 425), (300, 7500), (-200, 100), (1000, 1000 + 86400 * 3)):
+                x = ctx.emit("in_tz", {"tz": {"n": zn, "fo": 0}}, [mk_dt(UTCZ, i3_to_wall(sec_to_i3(sec + d1, 0)), 0)], log=False)
+                y = mk_dt(UTCZ, i3_to_wall(sec_to_i3(sec + d2, 0)), 0)
+                if isinstance(x, Exception):
+                    continue
+                from ..proj import enc as _enc
+
+                for loc in ("en", rnd.choice(locs)):
+                    ctx.emit("humanize", {"entry": "diff_for_humans", "is_now": False, "absolute": False, "locale": loc}, [_enc(x), y])
+                    ctx.emit("humanize", {"entry": "format_diff", "is_now": True, "absolute": False, "locale": loc}, [y, _enc(x)])
+    # locale-dependent format tokens render for every locale: ordinals of every day and month, names, day periods
+    for loc in ctx.mine(locs):
+        for day in range(1, 32):
+            v = mk_dt(UTCZ, [2023, 1 + day % 12, min(day, 28) if day % 12 == 1 else day if day <= 30 and day % 12 != 1 else 28, (day * 5) % 24, 0, 0, 0], 0)
+            v = mk_dt(UTCZ, [2023, 1, day, (day * 5) % 24, 0, 0, 0], 0)
+            ctx.emit("format", {"items": [["tok", "Do", cps("Do")], ["lit", cps(" ")], ["tok", "dddd", cps("dddd")], ["lit", cps(" ")], ["tok", "A", cps("A")]],
+                                "locale": loc, "method": "format", "named": ""}, [v])
+        for mo in range(1, 13):
+            v = mk_dt(UTCZ, [2024, mo, 11, 13, 0, 0, 0], 0)
+            ctx.emit("format", {"items": [["tok", "Mo", cps("Mo")], ["lit", cps(" ")], ["tok", "Qo", cps("Qo")], ["lit", cps(" ")], ["tok", "MMMM", cps("MMMM")],
+                                          ["lit", cps(" ")], ["tok", "ddd", cps("ddd")]], "locale": loc, "method": "format", "named": ""}, [v])
     # two times of day, also within one second of each other (direction down to the microsecond)
     for k in range(80 if q else 2000):
         h, mi, sc = rnd.randrange(24), rnd.randrange(60), rnd.randrange(60)
